@@ -75,6 +75,8 @@ def judge(job):
     if len(model.der_states) != len(model.states):
         viol("der-states-mismatch", "%d states but %d derivative states" % (len(model.states), len(model.der_states)))
     for fname in ("initial_residual_function", "variable_metadata_function"):
+        if not model._vf_pre_ok.get(fname, True):
+            continue  # could not be built before simplification either (e.g. a constant defined by another constant)
         try:
             getattr(model, fname)
         except Exception as e:  # noqa: BLE001
